@@ -20,6 +20,8 @@ import EaselModel.Dist.QuantileThm
 import EaselModel.Dist.GevDist
 import EaselModel.Dist.MixLogClose
 import EaselModel.Dist.MixgevLog
+import EaselModel.Dist.HxpQuantile
+import EaselModel.Dist.MixgevAll
 /-! # C10 — each distribution's pdf, cdf, survival, log and inverse functions agree
 
 Full statement (properties.jsonl): for every supported continuous distribution and all valid parameters and arguments
@@ -34,6 +36,13 @@ instantiated at `ℝ` — equals the textbook form within an explicit ε, across
 **Edge**: out-of-support values exactly, for every carrier.  **L0** (binary64 rounding of those real functions) is NOT
 proved here: it is supported by the bit-exact run of the same definitions at `Float` against the C functions and by the
 50-digit monitors of `props/c10.py`.
+
+Round 4 added: gamma / stretched exponential relative to the incomplete gamma function defined as an INTEGRAL (laws, unique
+quantiles, bisection-on-textbook total and accurate, code-vs-textbook identities with the two special-function discrepancies
+explicit); mixtures at full strength for every `K` (derivative off the support bounds, normalised forms, hyperexponential
+quantiles, log versions incl. the GEV mixture, GEV mixture at every argument); the GEV's Gumbel branch bounded against the
+GEV with the actual `α` for all eight functions; every sampler TRANSLATED (or hand-modelled: `esl_gam_Sample`) with its
+transformation theorem; the repaired bracketing loop (55bbf88) returns on every carrier that reaches `+inf`.
 
 Only statements and one-line glue here; the lemmas live in `EaselModel/Dist/*.lean`. -/
 noncomputable section
@@ -193,9 +202,9 @@ example : |esl_gev_logsurv (30 : ℝ) 0 1 0.5 - log (gevSurv 0 1 0.5 30)| ≤ 3e
 /-- L1, Gumbel branch (`|α y| < 1e-12`, resp. `|α| < 1e-12` for the inverse): the code is literally the Gumbel code, to
     which the `gumbel_code_*` theorems apply; `surv`/`logsurv` have their own switches there and stay within `2.3e-16`
     resp. `3e-8` of the Gumbel survival.
-    `_partial`: the full statement bounds `|Gumbel(y) − GEV_α(y)|`; proved for logcdf, cdf, surv, logpdf and pdf in
-    `gev_gumbel_branch_distance`, NOT for logsurv (bounded here against the Gumbel survival only). -/
-theorem gev_gumbel_branch_partial {x μ l α : ℝ} :
+    (Round 4: no longer `_partial` — the distance `|Gumbel(y) − GEV_α(y)|` of every one of these functions to the GEV with
+    the actual `α` is bounded in `gev_gumbel_branch_distance`.) -/
+theorem gev_gumbel_branch_is_gumbel_code {x μ l α : ℝ} :
     (|l * (x - μ) * α| < 1e-12 → esl_gev_cdf x μ l α = esl_gumbel_cdf x μ l ∧ esl_gev_logcdf x μ l α = esl_gumbel_logcdf x μ l ∧
       esl_gev_pdf x μ l α = esl_gumbel_pdf x μ l ∧ esl_gev_logpdf x μ l α = esl_gumbel_logpdf x μ l) ∧
     (|α| < 1e-12 → esl_gev_invcdf x μ l α = esl_gumbel_invcdf x μ l) ∧
@@ -461,6 +470,16 @@ theorem mixgev_mixture_laws {g : ESL_MIXGEV ℝ} (ok : MixGen.MixgevOK g) :
       |esl_mixgev_cdf x g + esl_mixgev_surv x g - MixGen.mixgevQ g| ≤ 2.3e-16 * MixGen.mixgevQ g) :=
   ⟨MixGen.mixgev_textbook_laws ok, fun _ hb => MixGen.mixgev_code_eq_textbook ok hb⟩
 
+/-- mixture of GEVs at EVERY argument (no `GevBranch` hypothesis; `y_k = λ_k (x − μ_k)`, `|y_k| ≤ 1e11`): a component inside
+    its `|α y| < 1e-12` Gumbel sliver contributes its Gumbel-vs-GEV distance, one outside contributes nothing — the translated
+    mixture cdf is within `Σ_k q_k·4e-12·|y_k|·e^{-y_k}` of the textbook mixture cdf, the survival within that plus `2.3e-16·Σq`. -/
+theorem mixgev_code_close_everywhere {g : ESL_MIXGEV ℝ} (ok : MixGen.MixgevOK g) {x : ℝ} (hy : ∀ k < g.K, |MixgevAll.yk g x k| ≤ 1e11) :
+    |esl_mixgev_cdf x g - MixGen.mixgevCdf g x| ≤
+      ∑ k ∈ Finset.range g.K, MixGen.gq g k * (4e-12 * |MixgevAll.yk g x k| * exp (-(MixgevAll.yk g x k))) ∧
+    |esl_mixgev_surv x g - MixGen.mixgevSurv g x| ≤ 2.3e-16 * MixGen.mixgevQ g +
+      ∑ k ∈ Finset.range g.K, MixGen.gq g k * (4e-12 * |MixgevAll.yk g x k| * exp (-(MixgevAll.yk g x k))) :=
+  MixgevAll.mixgev_close_everywhere ok hy
+
 /-- mixtures at full strength, for EVERY number of components `K`: the mixture density is the derivative of the mixture
     cdf at every point that is not a support boundary of a component — hyperexponential: every `x ≠ μ`; GEV mixture:
     every `x` with `1 + α_k λ_k (x − μ_k) ≠ 0` for all `k` (outside a component's support its cdf is locally constant and
@@ -493,6 +512,19 @@ example : MixGen.HxpOK ({ mu := 1, K := 3, q := [0.25, 0.25, 0.5], lambda := [1,
     have : k = 0 ∨ k = 1 ∨ k = 2 := by simp only at hk; omega
     rcases this with rfl | rfl | rfl <;> simp [MixGen.hq, MixGen.hl] <;> norm_num
   · simp [MixGen.hxpQ, MixGen.hq, Finset.sum_range_succ]; norm_num
+
+/-- hyperexponential, "the inverse cdf inverts the cdf" at L2, every `K`: rates `> 0`, coefficients `≥ 0`, at least one
+    `> 0` ⇒ the textbook mixture cdf is strictly increasing on `[μ, ∞)`, every `p ∈ (0, Σq)` has exactly one quantile `q > μ`,
+    and the bracketing + bisection algorithm of `esl_hxp_invcdf` (`Bisect.invcdfRightLim`, which the translated function is an
+    instance of) run on the textbook cdf returns, for all sufficiently large fuel, within `1e-6·(r − μ)` of that quantile.
+    (For `p ≥ Σq` see `bisection_bracket_returns_at_infinity`.) -/
+theorem hxp_inverse_laws {h : ESL_HYPEREXP ℝ} (ok : MixGen.HxpOK h) (hsome : ∃ k < h.K, 0 < MixGen.hq h k) {p : ℝ}
+    (hp0 : 0 < p) (hp1 : p < MixGen.hxpQ h) :
+    (∀ s t, h.mu ≤ s → s < t → MixGen.hxpCdf h s < MixGen.hxpCdf h t) ∧ (∃! q, h.mu < q ∧ MixGen.hxpCdf h q = p) ∧
+    ∃ q, (h.mu < q ∧ MixGen.hxpCdf h q = p) ∧ ∃ N : Nat, ∀ fuel, N ≤ fuel →
+      ∃ r, Bisect.invcdfRightLim fuel (MixGen.hxpCdf h) p h.mu = some r ∧ |r - q| ≤ 1e-6 * (r - h.mu) :=
+  ⟨fun _ _ hs hst => HxpQuantile.hxpCdf_strictMono ok hsome hs hst, HxpQuantile.hxp_quantile ok hsome hp0 hp1,
+    HxpQuantile.hxp_bisection_inverts ok hsome hp0 hp1⟩
 
 /-- `esl_vec_DMax` / `esl_vec_DMin` (translated) return an entry of `vec[0..n-1]` that bounds all of them — so the left
     bracket of `esl_mixgev_invcdf` starts at the smallest component location. -/
@@ -574,20 +606,22 @@ example : MixgevLog.Inside ({ K := 1, q := [1], mu := [0], lambda := [1], alpha 
     exponent `s = log(1+αy)/α` with `|s - y| ≤ 2e-12·|y|`, and its `log cdf` differs from the returned value by at most
     `4e-12·|y|·e^{-y}`, i.e. relative `4e-12·|y|` (`|y| ≤ 1e11`); the cdf by the same amount (exp is 1-Lipschitz on `(-∞,0]`)
     and the survival by that plus the `2.3e-16` of its own switch; the log density (GEV: `log λ − (1+α)s − e^{-s}`)
-    by at most `2e-12·|y| + 4e-12·|y|·e^{-y} + 2e-12`, the density by the corresponding relative amount.  (Round 4.  Still
-    open: `logsurv` against the GEV's own `log surv` — `gev_gumbel_branch_partial` bounds it against the Gumbel's.) -/
+    by at most `2e-12·|y| + 4e-12·|y|·e^{-y} + 2e-12`, the density by the corresponding relative amount; `logsurv` by `3e-8` (its own three-way switch) plus `7e-12·|y|`
+    (`|log(1−e^{−a}) − log(1−e^{−b})| ≤ |a−b|/min(a,b)`).  Round 4: with this all eight x-functions are bounded against the
+    GEV with the actual `α` inside the Gumbel branch — the former `gev_gumbel_branch_partial` is complete. -/
 theorem gev_gumbel_branch_distance {x μ l α : ℝ} (hα : α ≠ 0) (hg : |l * (x - μ) * α| < 1e-12) :
     |log (1 + α * (l * (x - μ))) / α - l * (x - μ)| ≤ 2e-12 * |l * (x - μ)| ∧
       (|l * (x - μ)| ≤ 1e11 →
         |esl_gev_logcdf x μ l α - log (gevCdf μ l α x)| ≤ 4e-12 * |l * (x - μ)| * exp (-(l * (x - μ))) ∧
         |esl_gev_cdf x μ l α - gevCdf μ l α x| ≤ 4e-12 * |l * (x - μ)| * exp (-(l * (x - μ))) ∧
         |esl_gev_surv x μ l α - gevSurv μ l α x| ≤ 2.3e-16 + 4e-12 * |l * (x - μ)| * exp (-(l * (x - μ))) ∧
+        |esl_gev_logsurv x μ l α - log (gevSurv μ l α x)| ≤ 3e-8 + 7e-12 * |l * (x - μ)| ∧
         (0 < l → |esl_gev_logpdf x μ l α - log (gevPdf μ l α x)| ≤
             2e-12 * |l * (x - μ)| + 4e-12 * |l * (x - μ)| * exp (-(l * (x - μ))) + 2e-12 ∧
           |esl_gev_pdf x μ l α - gevPdf μ l α x| ≤
             (exp (2e-12 * |l * (x - μ)| + 4e-12 * |l * (x - μ)| * exp (-(l * (x - μ))) + 2e-12) - 1) * gevPdf μ l α x)) :=
   ⟨GevThm.gumbel_branch_exponent hα hg, fun hy => ⟨GevThm.gumbel_branch_logcdf_dist hα hg hy,
-    GevDist.gumbel_branch_cdf_dist hα hg hy, GevDist.gumbel_branch_surv_dist hα hg hy,
+    GevDist.gumbel_branch_cdf_dist hα hg hy, GevDist.gumbel_branch_surv_dist hα hg hy, GevDist.gumbel_branch_logsurv_dist hα hg hy,
     fun hl => ⟨GevDist.gumbel_branch_logpdf_dist hl hα hg hy, GevDist.gumbel_branch_pdf_dist hl hα hg hy⟩⟩⟩
 
 example : |esl_gev_logcdf (2 : ℝ) 0 1 1e-13 - log (gevCdf 0 1 1e-13 2)| ≤ 4e-12 * |(1 : ℝ) * (2 - 0)| * exp (-((1 : ℝ) * (2 - 0))) :=
